@@ -627,7 +627,7 @@ def run_property(mod, tier, seed, replay=None):
         continue
       obligations.append('probe:%s' % w)
       try:
-        pb, stats = pr()
+        pb, stats = pr(getattr(mod, 'KERNELS_USED', None)) if w == 'kernels' else pr()
       except Exception as e:
         pb, stats = [{'kind': 'correspondence-run', 'name': 'probe:%s' % w, 'detail': '%s: %s' % (type(e).__name__, e)}], {}
       notes.setdefault('probe_stats', {})[w] = stats
